@@ -51,13 +51,18 @@ package transports
 //@   assigns nothing
 //@ func (r Registration) SharedSecret() []byte
 //@   assigns nothing
+// the transport keys cached in a registration, as the transports see them: a slot that only SetTransportKeys changes
+// and TransportKeys reads (interface contract: an implementation stores the keys and touches nothing else a transport
+// can observe)
+//@ ghost state regKeys(r Registration) any
 //@ func (r Registration) TransportKeys() any
+//@   ensures result == regKeys(r)
 //@   assigns nothing
 //@ func (r Registration) TransportReader() io.Reader
 //@   assigns nothing
-// (storing derived keys changes the registration object only)
 //@ func (r Registration) SetTransportKeys(keys any) error
-//@   assigns obj(r)
+//@   ensures result == nil ==> regKeys(r) == keys
+//@   assigns regKeys(r)
 
 // ---------------- C01: seeded destination port ----------------
 // Published algorithm (every transport, station and client): the port is min + a draw in [0, max-min) taken from the
